@@ -1,6 +1,6 @@
 import Garr.Conc
 /-!
-# Small-step model of `worker-pool/pool.go` (after the `fix:` commits 4ca4c2b, 1d81fc9)
+# Small-step model of `worker-pool/pool.go` (after the `fix:` commits 4ca4c2b, 1d81fc9, eaca25b)
 
 Go semantics modelled from the language specification: a buffered channel of capacity 1 (`taskQueue`) with a
 `closed` flag; `select` chooses ANY ready case (`Act.choose k`); a send on a closed channel panics (also inside
@@ -66,7 +66,7 @@ inductive L
   -- expanded worker (timer deadline)
   | e0 (dl : Nat) | eexec (u : Nat) | esend (u : Nat) | eexit | eexit2
   -- Start / Stop
-  | st0 | st1
+  | st0 | st0c | st1 | st2      -- Start: RLock, CAS 0→1, wg.Add + spawn, RUnlock
   | sp0 | sp1 | sp2 | sp3a | sp3b | sp3c | sp3d | sp4 | sp5 | sp5s (u : Nat)
   | exited
   | panicked
@@ -187,9 +187,11 @@ def step (P : Params) (_t : Tid) (g : G) : L → Act → Option (G × L × List 
   | .eexit, .tau => some ({ g with wg := g.wg - 1 }, .eexit2, [])
   | .eexit2, .tau => some ({ g with expanded := g.expanded - 1 }, .exited, [])
   -- Start
-  | .st0, .tau =>
-      if g.state = 0 then some ({ g with state := 1 }, .st1, []) else some (g, .idle, [.retStart])
-  | .st1, .tau => some ({ g with wg := g.wg + P.nworker, spawnFixed := g.spawnFixed + P.nworker }, .idle, [.retStart])
+  | .st0, .tau => if g.writer || g.wpending then none else some ({ g with readers := g.readers + 1 }, .st0c, [])
+  | .st0c, .tau =>
+      if g.state = 0 then some ({ g with state := 1 }, .st1, []) else some (g, .st2, [])
+  | .st1, .tau => some ({ g with wg := g.wg + P.nworker, spawnFixed := g.spawnFixed + P.nworker }, .st2, [])
+  | .st2, .tau => some ({ g with readers := g.readers - 1 }, .idle, [.retStart])
   -- Stop
   | .sp0, .tau => if g.state = 1 then some ({ g with state := 2 }, .sp2, []) else some (g, .sp1, [])
   | .sp1, .tau => if g.state = 0 then some ({ g with state := 2 }, .sp2, []) else some (g, .idle, [.retStop])
